@@ -548,7 +548,8 @@ def decide(prop, spec, results, tier, seed, t0):
            'rule': 'events = public calls executed on the real code, each judged by TLC (Trace_Tree) with every Level-A conjunct; '
                    'distinct_nontrivial = distinct (configuration run, model state, operation+arguments) triples executed (LTS edges)',
            'samples': [s for r in results for s in r['samples']][:3],
-           'exhaustive': tier == 'thorough',
+           # complete enumeration of a finite space only where the driver really executes every emitted case
+           'exhaustive': tier == 'thorough' and prop in ('C06', 'C18'),
            'groups': [{'group': r['group'], 'cached': r.get('cached', False), 'events': r['stats']['events'],
                        'runs': [{k: s.get(k) for k in ('cfg', 'mode', 'names', 'b', 'events', 'segments', 'edges_run', 'fast_disagreements', 'distinct_state_ops')} for s in r['runs']]} for r in results],
            'model_checking': {k: {kk: m.get(kk) for kk in ('module', 'states', 'transitions', 'action_coverage', 'cached')} for r in results for k, m in r['mc'].items()},
